@@ -52,6 +52,10 @@ F = {
     'f_bigendian': '\tcpu mcore\n\tbigendian on\n\tfoo\n',
     'f_compmode': '\tcpu 6502\n\tcompmode on\n\tfoo\n',
     'f_pushv': '\tcpu 6502\nx\tset 1\n\tpushv ,x\n\tfoo\n',
+    # symbols queued for the export record of the code file, behind the last code and in front of it
+    'f_export': '\tcpu 6502\nx\tequ 5\n\tnop\n\texport_sym x\n\tfoo\n',
+    'f_export_first': '\tcpu 6502\nx\tequ 5\n\texport_sym x\n\tjmp later\n\tfoo\nlater:\n',
+    'f_ok_export': '\tcpu 6502\nx\tequ 5\n\tnop\n\tjmp later\nlater:\tnop\n\texport_sym x\n',
     'f_fatal': None,   # placeholder: fatal ends the run, nothing follows
     'f_defsym': '\tcpu 6502\nsym\tequ 5\nm1\tmacro\n\tnop\n\tendm\n\tfoo\n',
     'f_sh_literal': '\tcpu sh7600\n\torg 0\n\tmov.l #$cafebabe,r1\n\trts\n\tnop\n',       # fails: literal pool never flushed by LTORG
